@@ -359,7 +359,7 @@ BUDGET = dict(quick=240, thorough=900)
 def harnesses(tier):
     q = tier == "quick"
     nmax = 5 if q else 7
-    nbits = 5 if q else 7
+    nbits = 5       # (both tiers; all mask values are the business of Engine B)
     nmax_unif = 4 if q else 6
     shapes = [v for n in range(2, nmax + 1) for v in tg.ordered_representatives(tg.all_parent_vectors(n))
               if tg.shape_ok(v, min_leaves=2, max_leaves=(4 if q else 5), allow_unifurcations=(n <= nmax_unif))]
